@@ -221,6 +221,17 @@ def load_native():
             f = mods["canopen"].__file__
             if not os.path.realpath(f).startswith(os.path.realpath(REPO) + os.sep):
                 raise RuntimeError("native canopen imported from %s, expected %s" % (f, REPO))
+            # deterministic environment for native runs: fake clock, queue/condition models with
+            # the delivery hook (the package source and struct/io/bytes/dict stay the real ones)
+            for mn, names in (("canopen.sdo.client", ("queue", "time")), ("canopen.lss", ("queue", "time")),
+                              ("canopen.nmt", ("threading", "time")), ("canopen.emcy", ("threading", "time")),
+                              ("canopen.pdo.base", ("threading",)), ("canopen.profiles.p402", ("time",)),
+                              ("canopen.timestamp", ("time",))):
+                for nm in names:
+                    if hasattr(mods[mn], nm):
+                        setattr(mods[mn], nm, getattr(stdlib, nm + "_model"))
+            import logging
+            logging.disable(logging.CRITICAL)
             _SETS["native"] = mods
         finally:
             _purge()
